@@ -35,6 +35,7 @@ import (
 	"time"
 
 	zdsa "github.com/zmap/zcrypto/dsa"
+	zasn1 "github.com/zmap/zcrypto/encoding/asn1"
 	zrsa "github.com/zmap/zcrypto/rsa"
 	zx509 "github.com/zmap/zcrypto/x509"
 	"github.com/zmap/zcrypto/x509/revocation/ocsp"
@@ -273,6 +274,105 @@ func reencode(sig []byte) []byte {
 	return append([]byte{0x30, 0x81, byte(len(body))}, body...)
 }
 
+// order of the group the (r, s) scheme of key k works in (q for DSA, n for ECDSA)
+func orderOf(k *iss.Key) *big.Int {
+	switch pk := k.StdPub.(type) {
+	case *dsa.PublicKey:
+		return pk.Q
+	case *ecdsa.PublicKey:
+		return pk.Curve.Params().N
+	}
+	return nil
+}
+
+type rawPair struct{ R, S asn1.RawValue }
+
+func derInt(n *big.Int) asn1.RawValue {
+	b, err := asn1.Marshal(n)
+	if err != nil {
+		obs.Fatal("derInt: %v", err)
+	}
+	return asn1.RawValue{FullBytes: b}
+}
+
+// signless: the magnitude of x written without a sign octet - if its top bit is set the INTEGER
+// reads as a negative number ("sign-bit re-encoding"); ok=false if the top bit is clear.
+func signless(x *big.Int) (asn1.RawValue, bool) {
+	b := x.Bytes()
+	if len(b) == 0 || b[0]&0x80 == 0 {
+		return asn1.RawValue{}, false
+	}
+	return asn1.RawValue{Class: 0, Tag: 2, Bytes: b}, true
+}
+
+// algebraic implements the classes PairMuts / RSAMuts / MalleableMuts of Ideal.tla on a genuine
+// signature b of key gk.  ok=false: not one of these classes.
+func algebraic(c VCase, gk *iss.Key, b []byte, rng *rand.Rand) (out []byte, where string, ok bool) {
+	switch c.Mut {
+	case "plus-modulus", "zero-prepended":
+		sk := gk.StdPriv.(*rsa.PrivateKey)
+		if c.Mut == "zero-prepended" {
+			return append([]byte{0}, b...), "00||s", true
+		}
+		k := (sk.N.BitLen() + 7) / 8
+		x := new(big.Int).Add(new(big.Int).SetBytes(b), sk.N)
+		xb := x.Bytes()
+		if len(xb) <= k {
+			return x.FillBytes(make([]byte, k)), "s+N/k", true
+		}
+		return xb, "s+N/k+1", true
+	case "s-plus-order", "r-plus-order", "s-zero", "r-zero", "s-order", "r-order", "s-neg", "r-neg", "s-complement":
+	default:
+		return nil, "", false
+	}
+	var ds dsaSig
+	if rest, err := asn1.Unmarshal(b, &ds); err != nil || len(rest) != 0 {
+		obs.Fatal("algebraic: genuine signature is not DER (r, s): %v", err)
+	}
+	q := orderOf(gk)
+	r, sv := derInt(ds.R), derInt(ds.S)
+	switch c.Mut {
+	case "s-plus-order":
+		k := int64(1 + rng.Intn(3))
+		where = "s+" + strconv.FormatInt(k, 10) + "*order"
+		sv = derInt(new(big.Int).Add(ds.S, new(big.Int).Mul(big.NewInt(k), q)))
+	case "r-plus-order":
+		where = "r+order"
+		r = derInt(new(big.Int).Add(ds.R, q))
+	case "s-zero":
+		sv = derInt(big.NewInt(0))
+	case "r-zero":
+		r = derInt(big.NewInt(0))
+	case "s-order":
+		sv = derInt(q)
+	case "r-order":
+		r = derInt(q)
+	case "s-neg", "r-neg":
+		x := ds.S
+		if c.Mut == "r-neg" {
+			x = ds.R
+		}
+		v, can := signless(x)
+		where = "signless"
+		if !can || rng.Intn(2) == 0 {
+			v, where = derInt(new(big.Int).Neg(x)), "negated"
+		}
+		if c.Mut == "r-neg" {
+			r = v
+		} else {
+			sv = v
+		}
+	case "s-complement":
+		where = "order-s"
+		sv = derInt(new(big.Int).Sub(q, ds.S))
+	}
+	out, err := asn1.Marshal(rawPair{r, sv})
+	if err != nil {
+		obs.Fatal("algebraic: %v", err)
+	}
+	return out, where, true
+}
+
 func flipAt(b []byte, pos int, rng *rand.Rand) []byte {
 	r := append([]byte(nil), b...)
 	r[pos] ^= byte(1 << uint(rng.Intn(8)))
@@ -334,6 +434,23 @@ func instantiate(c VCase, signer string, rng *rand.Rand) (k *iss.Key, alg string
 			em[p] = 0xfe
 			return new(big.Int).Exp(new(big.Int).SetBytes(em), sk.D, sk.N).FillBytes(make([]byte, k))
 		}
+		if out, w, ok := algebraic(c, gk, b, rng); ok {
+			where = w
+			return out
+		}
+		if c.Mut == "zero-removed" {
+			// needs a genuine signature with a leading zero octet: re-sign fresh messages until one turns up
+			for try := 0; try < 20000; try++ {
+				if b[0] == 0 {
+					where = "lead0"
+					return append([]byte(nil), b[1:]...)
+				}
+				m = make([]byte, 3+rng.Intn(200))
+				rng.Read(m)
+				b = sign(gk, c.Alg, signer, m)
+			}
+			obs.Fatal("zero-removed: no signature with a leading zero octet in 20000 tries")
+		}
 		obs.Fatal("unknown mutation %q", c.Mut)
 		return nil
 	}
@@ -380,6 +497,222 @@ func observe(w *obs.Writer, c VCase, signer string, rng *rand.Rand, extra map[st
 		}
 		w.Write(rec)
 	}
+}
+
+// ---------------------------------------------------------------------------- signatures inside objects
+
+// object: something the library created and signed with key k, with the call that verifies a
+// (possibly replaced) signature value through the object's own verification API.
+type object struct {
+	tbs, sig []byte
+	check    func(sig []byte) error
+}
+
+var objCache = map[string]*object{}
+
+var objKinds = []string{"certfrom", "csr", "rl", "crl", "ocsp"}
+
+// objectFor creates (once per key type / algorithm / kind) an object signed by the "subj" key of
+// type kt with the requested algorithm; nil if the creation API does not take this pair.
+func objectFor(kind, kt, alg string) *object {
+	id := kind + "/" + kt + "/" + alg
+	if o, ok := objCache[id]; ok {
+		return o
+	}
+	var o *object
+	defer func() { objCache[id] = o }()
+	k := iss.KeyFor("subj", kt)
+	if k.Signer == nil {
+		return nil
+	}
+	issuer := holderCA(k)
+	t0, t1 := iss.T2000.AddDate(21, 0, 0), iss.T2000.AddDate(22, 0, 0)
+	switch kind {
+	case "certfrom":
+		tmpl := &zx509.Certificate{SerialNumber: big.NewInt(9), Subject: iss.ZName(iss.Name{CN: "c03 child"}), NotBefore: t0, NotAfter: t1,
+			SignatureAlgorithm: iss.SigAlgOf(alg)}
+		der, err := zx509.CreateCertificate(crand.Reader, tmpl, issuer, iss.KeyFor("other", "ed25519").ZPub, k.Signer)
+		if err != nil {
+			return nil
+		}
+		c, err := zx509.ParseCertificate(der)
+		if err != nil {
+			obs.Fatal("certfrom: %v", err)
+		}
+		o = &object{tbs: c.RawTBSCertificate, sig: c.Signature, check: func(sig []byte) error {
+			cc := *c
+			cc.Signature = sig
+			return cc.CheckSignatureFrom(issuer)
+		}}
+	case "csr":
+		der, err := zx509.CreateCertificateRequest(crand.Reader, &zx509.CertificateRequest{Subject: iss.ZName(iss.Name{CN: "c03 csr"}),
+			SignatureAlgorithm: iss.SigAlgOf(alg)}, k.Signer)
+		if err != nil {
+			return nil
+		}
+		c, err := zx509.ParseCertificateRequest(der)
+		if err != nil {
+			obs.Fatal("csr: %v", err)
+		}
+		o = &object{tbs: c.RawTBSCertificateRequest, sig: c.Signature, check: func(sig []byte) error {
+			cc := *c
+			cc.Signature = sig
+			return cc.CheckSignature()
+		}}
+	case "rl":
+		der, err := zx509.CreateRevocationList(crand.Reader, &zx509.RevocationList{Number: big.NewInt(1), ThisUpdate: t0, NextUpdate: t1,
+			SignatureAlgorithm: iss.SigAlgOf(alg)}, issuer, k.Signer)
+		if err != nil {
+			return nil
+		}
+		rl, err := zx509.ParseRevocationList(der)
+		if err != nil {
+			obs.Fatal("rl: %v", err)
+		}
+		o = &object{tbs: rl.RawTBSRevocationList, sig: rl.Signature, check: func(sig []byte) error {
+			cc := *rl
+			cc.Signature = sig
+			return cc.CheckSignatureFrom(issuer)
+		}}
+	case "crl":
+		if alg != defaultAlg(kt) {
+			return nil // CreateCRL has no algorithm parameter
+		}
+		der, err := issuer.CreateCRL(crand.Reader, k.Signer, nil, t0, t1)
+		if err != nil {
+			return nil
+		}
+		cl, err := zx509.ParseCRL(der)
+		if err != nil {
+			obs.Fatal("crl: %v", err)
+		}
+		o = &object{tbs: cl.TBSCertList.Raw, sig: cl.SignatureValue.RightAlign(), check: func(sig []byte) error {
+			cc := *cl
+			cc.SignatureValue = zasn1.BitString{Bytes: sig, BitLength: 8 * len(sig)}
+			return issuer.CheckCRLSignature(&cc)
+		}}
+	case "ocsp":
+		der, err := ocsp.CreateResponse(issuer, issuer, ocsp.Response{Status: ocsp.Good, SerialNumber: big.NewInt(5), ThisUpdate: t0, NextUpdate: t1,
+			SignatureAlgorithm: iss.SigAlgOf(alg)}, k.Signer)
+		if err != nil {
+			return nil
+		}
+		r, err := ocsp.ParseResponse(der, nil)
+		if err != nil {
+			obs.Fatal("ocsp: %v", err)
+		}
+		o = &object{tbs: r.TBSResponseData, sig: r.Signature, check: func(sig []byte) error {
+			cc := *r
+			cc.Signature = sig
+			return cc.CheckSignatureFrom(issuer)
+		}}
+	}
+	if o != nil {
+		if err := o.check(o.sig); err != nil {
+			obs.Fatal("%s created with %s/%s does not verify: %v", kind, kt, alg, err)
+		}
+		if stdVerify(k, alg, o.tbs, o.sig) != "yes" {
+			obs.Fatal("%s created with %s/%s: the standard library rejects the signature", kind, kt, alg)
+		}
+	}
+	return o
+}
+
+func defaultAlg(kt string) string {
+	switch kt {
+	case "p224", "p256":
+		return "ECDSA-SHA256"
+	case "p384":
+		return "ECDSA-SHA384"
+	case "p521":
+		return "ECDSA-SHA512"
+	case "ed25519":
+		return "Ed25519"
+	}
+	return "SHA256-RSA"
+}
+
+var holderCAs = map[*iss.Key]*zx509.Certificate{}
+
+// holderCA: a CA certificate (certSign, crlSign, SKID) whose subject key is k.
+func holderCA(k *iss.Key) *zx509.Certificate {
+	if c, ok := holderCAs[k]; ok {
+		return c
+	}
+	c, err := iss.CAHolding(k)
+	if err != nil {
+		obs.Fatal("CA certificate holding a %s key: %v", k.Type, err)
+	}
+	holderCAs[k] = c
+	return c
+}
+
+// observeObjects: the signature-only cases of c on the objects' own verification APIs.
+func observeObjects(w *obs.Writer, c VCase, rng *rand.Rand) {
+	if c.Target != "none" && c.Target != "sig" {
+		return
+	}
+	switch c.Mut {
+	case "resalt", "badpad", "zero-removed": // need a fresh private-key operation on the object's bytes
+		return
+	}
+	gk := iss.KeyFor("subj", c.KT)
+	for _, kind := range objKinds {
+		o := objectFor(kind, c.KT, c.Alg)
+		if o == nil {
+			continue
+		}
+		sig, where := o.sig, ""
+		if c.Target == "sig" {
+			if out, wh, ok := algebraic(c, gk, o.sig, rng); ok {
+				sig, where = out, wh
+			} else {
+				sig, where = byteMutate(c.Mut, o.sig, rng)
+			}
+		}
+		std := "n/a"
+		if c.Target != "none" {
+			std = stdVerify(gk, c.Alg, o.tbs, sig)
+		}
+		var err error
+		g := obs.Guard(60*time.Second, func() { err = o.check(sig) })
+		es := ""
+		if g.Panic != "" || g.Timeout {
+			err, es = os.ErrInvalid, "PANIC/TIMEOUT: "+g.Panic
+		} else if err != nil {
+			es = err.Error()
+		}
+		w.Write(map[string]any{"c": c, "accept": err == nil, "stdAccept": std, "path": "obj:" + kind, "signer": "lib", "where": where, "err": es,
+			"sigLen": len(sig)})
+	}
+}
+
+// byteMutate: the position-based classes on a given signature value.
+func byteMutate(mut string, b []byte, rng *rand.Rand) ([]byte, string) {
+	switch mut {
+	case "flip-first":
+		return flipAt(b, 0, rng), "0"
+	case "flip-middle":
+		p := 1 + rng.Intn(len(b)-2)
+		return flipAt(b, p, rng), strconv.Itoa(p)
+	case "flip-last":
+		return flipAt(b, len(b)-1, rng), strconv.Itoa(len(b) - 1)
+	case "truncate":
+		n := 1 + rng.Intn(3)
+		return append([]byte(nil), b[:len(b)-n]...), "-" + strconv.Itoa(n)
+	case "extend":
+		x := make([]byte, 1+rng.Intn(3))
+		rng.Read(x)
+		return append(append([]byte(nil), b...), x...), "+" + strconv.Itoa(len(x))
+	case "zero":
+		return make([]byte, len(b)), ""
+	case "empty":
+		return []byte{}, ""
+	case "reencode":
+		return reencode(b), ""
+	}
+	obs.Fatal("byteMutate: unknown mutation %q", mut)
+	return nil, ""
 }
 
 func signersOf(kt string) []string {
@@ -499,10 +832,21 @@ func main() {
 			if g.C.Target == "none" || g.C.Target == "key" || g.C.Target == "alg" || g.C.Mut == "zero" || g.C.Mut == "empty" || g.C.Mut == "reencode" || g.C.Mut == "badpad" {
 				k = 2 // no position to vary: fresh message and signature only
 			}
+			switch g.C.Mut {
+			case "s-plus-order", "s-neg", "r-neg":
+				k = 4 // k = 1..3 resp. both ways of making the INTEGER negative
+			case "r-plus-order", "s-zero", "r-zero", "s-order", "r-order", "s-complement", "plus-modulus", "zero-prepended":
+				k = 2
+			case "zero-removed":
+				k = 1
+			}
 			for _, s := range signersOf(g.C.KT) {
 				for i := 0; i < k; i++ {
 					observe(w, g.C, s, rng, nil)
 				}
+			}
+			for i := 0; i < (k+1)/2; i++ {
+				observeObjects(w, g.C, rng)
 			}
 			return nil
 		})
@@ -621,8 +965,13 @@ func main() {
 			if s == "" {
 				s = "std"
 			}
-			for i := 0; i < 24; i++ {
+			n := 24
+			if rc.C.Mut == "zero-removed" {
+				n = 2
+			}
+			for i := 0; i < n; i++ {
 				observe(w, *rc.C, s, rng, nil)
+				observeObjects(w, *rc.C, rng)
 			}
 		}
 		w.Close()
